@@ -10,6 +10,9 @@
   everything else is proved.
 -/
 import Frost.Proofs.Honest
+import Frost.Proofs.NafValue
+import Mathlib.Data.ZMod.Basic
+import Mathlib.Algebra.Field.ZMod
 
 set_option linter.unusedSectionVars false
 
@@ -99,5 +102,30 @@ example : ([1, 2] : List ℚ).Nodup ∧ ([3, 4] : List ℚ).length ≤ ([1, 2] :
   constructor
   · decide
   · decide
+
+/-- **The multiscalar multiplication is correct** (`SignSession.Ok`'s field `msm`, the
+    hypothesis `MsmSound`, is not an assumption about the algorithm): whenever
+    `little_endian_serialize` is the fixed-length little-endian encoding of the scalar, the
+    width-5 NAF digits reassemble the scalar (`nonAdjacentForm_value`, by induction over the loop
+    for every byte length) and the interleaved double-and-add with its 8-entry lookup tables
+    returns `Σ sᵢ • Pᵢ`. -/
+theorem msm_sound (le : F → Bytes) (hle : LeSound le) : MsmSound (E := E) le :=
+  msmSound_of_leSound le hle
+
+/-- the NAF digits of every byte string reassemble the number it denotes, are odd, lie in
+    (-16, 16) and sit at distinct positions below the NAF length -/
+theorem naf_value (le : Bytes) (ds : List (Nat × Int)) (h : nonAdjacentForm le 5 = some ds) :
+    nafValue ds = (leNat le : Int) ∧ NafOk (8 * le.length + 1) ds :=
+  nonAdjacentForm_value le ds h
+
+/-- non-vacuity of the encoding law: one-byte little-endian scalars of `ZMod 3` -/
+example : LeSound (F := ZMod 3) (fun s => [UInt8.ofNat s.val]) := by
+  refine ⟨?_, fun _ _ => rfl⟩
+  intro s
+  have hlt : s.val < 3 := ZMod.val_lt s
+  have : leNat [UInt8.ofNat s.val] = s.val := by
+    simp [leNat, UInt8.toNat_ofNat']
+    omega
+  rw [this, ZMod.natCast_zmod_val]
 
 end Frost.C01
